@@ -314,6 +314,11 @@ const FOOTER: &str = "\nlet __res;\ntry { __res = await main(); } catch (e) { __
 
 /// (name, body defining `async function main()`; may use __log)
 pub const AWAIT_ATOMS: &[(&str, &str)] = &[
+    ("caller-continues-while-callee-awaits", "async function main(){ async function w(){ const v = await order({k: 1}); __log.push('w' + v); return v; } const p = w(); __log.push('main'); const r = await p; return r; }"),
+    ("caller-resolves-what-callee-awaits", "async function main(){ let res; const gate = new Promise(function(r){ res = r; }); async function w(){ const g = await gate; const v = await order({k: g}); __log.push('w' + v); return v; } const p = w(); __log.push('main'); res(3); const r = await p; return r; }"),
+    ("toplevel-caller-continues-while-callee-awaits", "async function w(){ const v = await order({k: 1}); __log.push('w' + v); return v; }\nconst __p = w(); __log.push('top');\nasync function main(){ return await __p; }"),
+    ("toplevel-caller-resolves-what-callee-awaits", "let __res; const __gate = new Promise(function(r){ __res = r; });\nasync function w(){ const g = await __gate; const v = await order({k: g}); __log.push('w' + v); return v; }\nconst __p = w(); __log.push('top'); __res(3);\nasync function main(){ return await __p; }"),
+    ("toplevel-two-callees-one-gate", "let __res; const __gate = new Promise(function(r){ __res = r; });\nasync function w(t){ const g = await __gate; __log.push(t + g); return await order({k: g}); }\nconst __a = w('a'); const __b = w('b'); __log.push('top'); __res(2);\nasync function main(){ return [await __a, await __b]; }"),
     ("arguments-after-await", "async function main(){ async function f(a, b){ const r = await order({k: 1}); return [arguments.length, arguments[0], arguments[2], r, a + b]; } return await f(7, 8, 9); }"),
     ("arguments-in-caller-frame", "async function main(){ async function inner(k){ return await order({k: k}); } async function outer(){ const r = await inner(2); return [arguments.length, arguments[1], r]; } return await outer('x', 'y', 'z'); }"),
     ("arguments-in-sync-caller", "async function main(){ function deep(k){ return order({k: k}); } function mid(){ const p = deep(3); return [arguments.length, arguments[0], p]; } const t = mid('m', 'n'); t[2] = await t[2]; return t; }"),
